@@ -471,9 +471,9 @@ package secretstore
 //@   ensures [C02.precompute.result] ret1 == nil && !old(dsh(s.datastore))[k_ck(pkv(groupPublicKey), pkv(devicePublicKey))] ==> ret0.Counter == deviceChainKey.Counter + ite(s.preComputedKeysCount < 0, 0, s.preComputedKeysCount)
 //@     && bytes(ret0.ChainKey) == ckiter(bytes(deviceChainKey.ChainKey), pkv(groupPublicKey), ite(s.preComputedKeysCount < 0, 0, s.preComputedKeysCount))
 //@   ensures [C02.precompute.window] ret1 == nil && !old(dsh(s.datastore))[k_ck(pkv(groupPublicKey), pkv(devicePublicKey))] ==>
-//@        (forall j {mkiter(bytes(deviceChainKey.ChainKey), pkv(groupPublicKey), j)} :: 1 <= j && j <= s.preComputedKeysCount ==>
-//@            dsh(s.datastore)[k_pre(pkv(groupPublicKey), pkv(devicePublicKey), deviceChainKey.Counter + j)]
-//@         && dsv(s.datastore)[k_pre(pkv(groupPublicKey), pkv(devicePublicKey), deviceChainKey.Counter + j)] == mkiter(bytes(deviceChainKey.ChainKey), pkv(groupPublicKey), j))
+//@        (forall j {mkiter(old(bytes(deviceChainKey.ChainKey)), pkv(groupPublicKey), j)} :: 1 <= j && j <= s.preComputedKeysCount ==>
+//@            dsh(s.datastore)[k_pre(pkv(groupPublicKey), pkv(devicePublicKey), old(deviceChainKey.Counter) + j)]
+//@         && dsv(s.datastore)[k_pre(pkv(groupPublicKey), pkv(devicePublicKey), old(deviceChainKey.Counter) + j)] == mkiter(old(bytes(deviceChainKey.ChainKey)), pkv(groupPublicKey), j))
 //@   ensures [C02.precompute.frame] s != nil ==> (forall k Bytes {dsh(s.datastore)[k]} ::
 //@        (forall c {k_pre(pkv(groupPublicKey), pkv(devicePublicKey), c)} :: k != k_pre(pkv(groupPublicKey), pkv(devicePublicKey), c))
 //@        ==> dsh(s.datastore)[k] == old(dsh(s.datastore))[k] && dsv(s.datastore)[k] == old(dsv(s.datastore))[k])
